@@ -92,16 +92,34 @@ Theorem trailing_skip_sound : forall h ws p len n1 n2,
 Proof. exact trailing_skip. Qed.
 Print Assumptions trailing_skip_sound.
 
-(** generated obligation (vm.c opcode switch of the tree under check, Gen/C02_VmTop.v): in every opcode, wherever
-    a call that may allocate (= may collect) is reached, the VM's local stack top is at or below the top published
-    in the context, so the marker's scan of the stack (slots below the published top) covers every live operand *)
+(** generated obligation (vm.c opcode switch of the tree under check, Gen/C02_VmTop.v), two-sided since round 3: in every
+    opcode, wherever a call that may allocate (= may collect) is reached, (a) the VM's local stack top is at or below the top
+    published in the context, so the marker's scan of the stack (the slots below the published top) covers every live
+    operand, and no slot into which the opcode has stored a heap value (neither an immediate nor a registered local) lies at
+    or above the published top (no lost root), and (b) the published top is at or below the end of the slots written under the frame protocol,
+    so the marker scans no word left behind by an earlier call frame (no stale root: the sexp_raise defect); (c) every exit of
+    every opcode re-establishes the condition assumed at the start of every opcode *)
 Theorem alloc_ops_publish_top : forallb VmTop.seg_ok C02_VmTop.vm_segments = true.
 Proof. exact VmTopCheck.vm_alloc_ops_publish_top. Qed.
 Print Assumptions alloc_ops_publish_top.
 
-(** the checker behind it is sound for branch-free opcode bodies: on the concrete pair (local top, published top), started
-    in any state, no call that may allocate runs with the local top above the published one *)
-Theorem vm_top_checker_sound : forall l f s c ok,
-  Forall VmTop.flat l -> VmTop.gamma s c -> fst (VmTop.run_list (S f) l ok (Some s)) = true -> VmTop.crun l c <> None.
-Proof. exact VmTop.vm_top_checker_sound_flat. Qed.
+(** the checker behind it is sound for the WHOLE item language (branches, loops with break / continue, nested switches):
+    for every big-step execution of a piece of code on a configuration (local top, published top, written end) described by
+    the abstract state, an accepted piece never runs an allocating call with top > published, fresh end > published or published > written end, and
+    the computed fall-through / break states describe the resulting configurations; configurations at which the opcode ends
+    satisfy the entry condition *)
+Theorem vm_top_checker_sound : forall l c o s,
+  VmTop.execs l c o -> VmTop.gamma s c -> VmTop.rok (VmTop.run_list l (Some s)) = true ->
+  o <> VmTop.OBad /\ VmTop.sound_out (VmTop.run_list l (Some s)) o.
+Proof. exact VmTop.vm_top_checker_sound_all. Qed.
 Print Assumptions vm_top_checker_sound.
+
+(** both together, about the table regenerated from vm.c: "top <= written end and published <= written end" is an invariant
+    of the interpreter loop (every opcode started in it ends in it), and under it no opcode reaches an allocating call with a
+    live slot above the published top or with an unwritten slot below it: at every collection started from the opcode switch
+    the scanned stack prefix consists exactly of slots written under the frame protocol and contains every live operand *)
+Theorem vm_stack_scan_exact : forall name items c o,
+  In (name, items) C02_VmTop.vm_segments -> VmTop.entry c -> VmTop.cf c = None -> VmTop.execs items c o ->
+  match o with VmTop.OBad => False | VmTop.OFall c' | VmTop.OBreak c' | VmTop.OStop c' => VmTop.entry c' end.
+Proof. exact VmTopCheck.vm_opcodes_scan_exactly_written_prefix. Qed.
+Print Assumptions vm_stack_scan_exact.
